@@ -393,6 +393,39 @@ fn check_variant(l: &Ledger, w: &W3, v: &Variant, c: &mut Counts, sample: &mut O
             if post != reference_ledger {
                 return Err(format!("state after the two-hop differs from the state after the two single swaps: {}", describe_diff(w, &post, &reference_ledger)));
             }
+            // packaging (v2): the same two-hop with the needed tick arrays of a leg handed over as supplemental accounts while its
+            // three slots name an array behind the direction of travel, and with irrelevant extra supplemental arrays — the outcome
+            // must not depend on it (C10's packaging clause, on the two-hop instruction)
+            if v.v2 && v.lim1 == Lim::None && v.lim2 == Lim::None && (v.amount == 1_000_000 || v.amount == 40_000_000) {
+                let a = HopArgs { amount: v.amount, other_amount_threshold: neutral, exact_in: v.exact_in, a_to_b_one: v.a1, a_to_b_two: v.a2, limit_one: lim1, limit_two: lim2 };
+                let canon = |p: &crate::world::PoolRef, a_to_b: bool| crate::world::swap_tick_arrays(p, p.state(l).tick_current_index, a_to_b);
+                let behind = |p: &crate::world::PoolRef, a_to_b: bool| {
+                    let n = p.ticks_in_array();
+                    let shift = if a_to_b { 0 } else { p.tick_spacing as i32 };
+                    let s0 = (p.state(l).tick_current_index + shift).div_euclid(n) * n;
+                    p.tick_array(if a_to_b { s0 + n } else { s0 - n })
+                };
+                let (c1, c2) = (canon(p1, v.a1), canon(p2, v.a2));
+                let (b1, b2) = (behind(p1, v.a1), behind(p2, v.a2));
+                let packs: [(&str, [Pubkey; 3], [Pubkey; 3], Vec<Pubkey>, Vec<Pubkey>); 4] = [
+                    ("leg one through supplemental arrays", [b1; 3], c2, c1.to_vec(), vec![]),
+                    ("leg two through supplemental arrays", c1, [b2; 3], vec![], c2.to_vec()),
+                    ("both legs through supplemental arrays", [b1; 3], [b2; 3], c1.to_vec(), c2.to_vec()),
+                    ("irrelevant extra supplemental arrays", c1, c2, vec![b1], vec![b2]),
+                ];
+                for (what, t1, t2, s1, s2) in packs {
+                    let ix = w3::ix_two_hop_packaged(l, w, v.one, v.two, a, true, t1, t2, &s1, &s2);
+                    let mut alt = l.clone();
+                    let o = svm::process(&mut alt, &ix);
+                    bump(c, "two_hop_packagings_compared");
+                    if !o.ok() {
+                        return Err(format!("two-hop with {what} failed with {} while the same arrays in the slots succeed", o.short()));
+                    }
+                    if alt != post {
+                        return Err(format!("two-hop with {what} ends in a different state: {}", describe_diff(w, &alt, &post)));
+                    }
+                }
+            }
             let hop_events = traded_events(&hop);
             if hop_events != events {
                 return Err(format!(
@@ -652,6 +685,7 @@ pub fn run(ctx: &Ctx) -> Report {
     // vacuity guards
     let sum_prefix = |p: &str| totals.iter().filter(|(k, _)| k.starts_with(p)).map(|(_, n)| *n).sum::<u64>();
     r.guard("two_hop_executions_compared", get("two_hop_executions_compared"));
+    r.guard("two_hop_packagings_compared", get("two_hop_packagings_compared"));
     let versions: &[&str] = if names.iter().any(|(n, _)| *n == "c17-spl") { &["v1", "v2"] } else { &["v2"] };
     for (one, two, a1, a2) in ROUTES {
         let v = Variant { one, two, a1, a2, v2: true, exact_in: true, amount: 0, lim1: Lim::None, lim2: Lim::None };
@@ -685,6 +719,36 @@ pub fn run(ctx: &Ctx) -> Report {
     r.assume("transfer fee on the intermediate mint: leg amounts are matched at the vault level (fee charged once, vault to vault); the two single swaps charge the trader a second fee, so the trader's intermediate account is compared with the pre-state instead");
     r.assume("transfer-hook mints and supplemental tick arrays in two-hop remaining accounts are not exercised");
     r
+}
+
+/// C10's share of the two-hop packaging clause: in the root states of the plain three-pool world every v2 two-hop variant that
+/// carries the packaging comparison (see `check_variant`) is executed. Returns (variants judged, packagings compared, first failure).
+pub fn packaging_part() -> (u64, u64, Option<(String, String, Value)>) {
+    let b = build_world("c17-spl");
+    let vs: Vec<Variant> = variants(&b.w, false).into_iter().filter(|v| v.v2 && v.lim1 == Lim::None && v.lim2 == Lim::None && (v.amount == 1_000_000 || v.amount == 40_000_000)).collect();
+    let mut c = Counts::new();
+    let mut n = 0u64;
+    for (rname, l) in &b.roots {
+        for v in &vs {
+            n += 1;
+            let mut sample = None;
+            if let Err(e) = check_variant(l, &b.w, v, &mut c, &mut sample) {
+                let case = json!({"kind": "twohop_packaging", "root": rname, "variant": serde_json::to_value(v).unwrap()});
+                return (n, *c.get("two_hop_packagings_compared").unwrap_or(&0), Some((format!("twohop_packaging/{rname}/{}", serde_json::to_string(v).unwrap()), format!("[three-pool world, root {rname}] {e} | variant {}", serde_json::to_string(v).unwrap()), case)));
+            }
+        }
+    }
+    (n, *c.get("two_hop_packagings_compared").unwrap_or(&0), None)
+}
+
+pub fn replay_packaging(case: &Value) -> Result<(), String> {
+    let b = build_world("c17-spl");
+    let root = case["root"].as_str().ok_or("root")?;
+    let l = &b.roots.iter().find(|r| r.0 == root).ok_or("unknown root")?.1;
+    let v: Variant = serde_json::from_value(case["variant"].clone()).map_err(|e| e.to_string())?;
+    let mut c = Counts::new();
+    let mut sample = None;
+    check_variant(l, &b.w, &v, &mut c, &mut sample)
 }
 
 pub fn replay(case: &Value) -> Result<(), String> {
